@@ -288,6 +288,24 @@ Theorem C09_integer_types_strict :
 Proof. split; [exact intr_scalar_strict|exact size_negative_refuted]. Qed.
 Print Assumptions C09_integer_types_strict.
 
+(* boolean values: the value text is accepted iff it is EXACTLY one of the six spellings (the typed extraction consumes the
+   whole registered value text); one more byte before or after an accepted spelling - a blank, a junk word, another
+   keyword with its value, a brace - makes it a refusal; a rule that only compares the first word accepts "on junk" and
+   "off on", which the rule of the parser refuses *)
+Theorem C09_bool_value_strict :
+  (forall data b, bool_value data = SAccept b <->
+     (b = true /\ (data = str_on \/ data = str_yes \/ data = str_true)) \/
+     (b = false /\ (data = str_off \/ data = str_no \/ data = str_false))) /\
+  (forall data b, bool_value data = SAccept b ->
+     forall pre suf, pre ++ suf <> [] -> bool_value (pre ++ data ++ suf) = SReject) /\
+  ((bool_value_first_word [111; 110; 32; 106; 117; 110; 107] = SAccept true /\
+    bool_value [111; 110; 32; 106; 117; 110; 107] = SReject) /\
+   (bool_value_first_word [111; 102; 102; 32; 111; 110] = SAccept false /\
+    bool_value [111; 102; 102; 32; 111; 110] = SReject) /\
+   bool_value [10; 32; 111; 110; 10] = SReject).
+Proof. split; [exact bool_value_strict|split; [exact bool_value_whole_text|exact bool_first_word_refuted]]. Qed.
+Print Assumptions C09_bool_value_strict.
+
 (* the rule of the pinned code (one successful extraction before the first failure) violates the statement above:
    "0.5abc", "1 abc", "5.5" for an integer are accepted; this is how the defect was found.  The repaired rule
    accepts a subset of the pinned one, with the same value. *)
